@@ -92,6 +92,8 @@ type pubScn struct {
 	actors  []*pubActor
 	owner   *pubActor
 	script  []string
+	tainted map[types.Uid]bool
+	noteStepFixed *[2]any
 	readonly bool
 }
 
